@@ -2,6 +2,7 @@
 import json, os, sys
 from .core import Ctx, Infra, VERIF
 from . import checks_sem as sem
+from . import checks_store as store
 
 CHECKS = {}
 
@@ -157,6 +158,15 @@ def c09(ctx):
                       "on B and k+1..n on the state TLC printed; non-trivial = both halves produce postings")
 
 
+@check("C10")
+def c10(ctx):
+    ctx.assumptions += TRUST
+    ctx.assumptions.append("relational check: a group of real executions of one program on one content must agree; the harness's scripted store is trusted to implement the four reply shapes")
+    store.store_check(ctx, "C10")
+    return ctx.finish("model_checking", "one evaluation = one real run of a program under one store behaviour (reply shape per call from Machine.tla / StoreEnv.tla, "
+                      "plus exact/sparse/superset/static); a group (program x content) is non-trivial when some run makes >= 2 store calls")
+
+
 def replay(path):
     rp = json.load(open(path))
     prop = rp.get("property", "C00")
@@ -178,6 +188,14 @@ def replay(path):
             viols, rp2 = sem.confirm_split(ctx, rp["mode"], prop, rp["case"])
             print(json.dumps(rp2.get("relation_lines"), indent=1)[:3000])
             if viols:
+                print("VIOLATION property=%s replay=%s" % (prop, path))
+                return 1
+            print("not reproduced")
+            return 0
+        if rp["kind"] == "store":
+            hits = store.confirm_store(ctx, rp)
+            print(json.dumps(rp.get("observed"), indent=1)[:3000])
+            if hits:
                 print("VIOLATION property=%s replay=%s" % (prop, path))
                 return 1
             print("not reproduced")
